@@ -415,6 +415,67 @@ def generate(o):
             raise KeyError("the two isinstance tests on `tables`")
         return [accepted, itered]
 
+    # ---- where the columns a conversion returns come from, and whether that place keeps its results between calls
+    def _decorators(fn, plain=()):
+        """-> True (a cache / memo decorator), False (none besides `plain`); anything else is not understood"""
+        rest = [ast.unparse(d) for d in fn.decorator_list if ast.unparse(d) not in plain]
+        if not rest:
+            return False
+        if all(("cache" in d.lower() or "memo" in d.lower()) for d in rest):
+            return True
+        raise KeyError("decorators " + ", ".join(rest)[:60])
+
+    def _builds_fresh_schema(expr):
+        """`RelationSchema(name=…, columns=[FlatColumn.from_arrow(f) for f in …])`: new objects on every evaluation"""
+        if not (isinstance(expr, ast.Call) and ast.unparse(expr.func).split(".")[-1] == "RelationSchema"):
+            return False
+        cols = [k.value for k in expr.keywords if k.arg == "columns"]
+        if len(cols) != 1 or not isinstance(cols[0], ast.ListComp) or len(cols[0].generators) != 1:
+            return False
+        elt = cols[0].elt
+        return isinstance(elt, ast.Call) and ast.unparse(elt.func) in ("FlatColumn.from_arrow", "cls.from_arrow") \
+            and len(elt.args) == 1 and not cols[0].generators[0].ifs
+
+    def schema_sites():
+        # converters.from_arrow: `orso_schema = RelationSchema(…)` in place, or `orso_schema = <helper>(<arrow schema>)`
+        fn = find_function(conv.tree, "from_arrow")
+        if fn.decorator_list:
+            raise KeyError("from_arrow is decorated")
+        exprs = [n.value for n in ast.walk(fn) if isinstance(n, ast.Assign) and len(n.targets) == 1
+                 and ast.unparse(n.targets[0]) == "orso_schema"]
+        if len(exprs) != 1:
+            raise KeyError("one assignment to orso_schema in from_arrow")
+        helper = find_function(schema.tree, "convert_arrow_schema_to_orso_schema")
+        rets = [n for n in ast.walk(helper) if isinstance(n, ast.Return)]
+        body = [st for st in helper.body if not (isinstance(st, ast.Expr) and isinstance(st.value, ast.Constant))]
+        if len(rets) != 1 or len(body) != 1 or not _builds_fresh_schema(rets[0].value):
+            raise KeyError("convert_arrow_schema_to_orso_schema: return RelationSchema(… [FlatColumn.from_arrow(f) for f in …])")
+        helper_memo = _decorators(helper)
+        if _builds_fresh_schema(exprs[0]):
+            via_helper = False
+        elif isinstance(exprs[0], ast.Call) and ast.unparse(exprs[0].func).split(".")[-1] == "convert_arrow_schema_to_orso_schema" \
+                and len(exprs[0].args) == 1 and not exprs[0].keywords:
+            via_helper = True
+        else:
+            raise KeyError("orso_schema = " + ast.unparse(exprs[0])[:60])
+        col = find_function(schema.tree, "from_arrow", "FlatColumn")
+        col_memo = _decorators(col, plain=("classmethod",))
+        crets = [n for n in ast.walk(col) if isinstance(n, ast.Return)]
+        if len(crets) != 1 or not (isinstance(crets[0].value, ast.Call) and ast.unparse(crets[0].value.func) in ("FlatColumn", "cls")):
+            raise KeyError("FlatColumn.from_arrow: return FlatColumn(…)")
+        return [via_helper, helper_memo, col_memo]
+
+    def to_sites():
+        # the other direction: `arrow_field` is a plain property, the schema helper / `to_arrow` / `DataFrame.arrow` are undecorated
+        af = find_function(schema.tree, "arrow_field", "FlatColumn")
+        af_memo = _decorators(af, plain=("property",))
+        helper = find_function(schema.tree, "convert_orso_schema_to_arrow_schema")
+        h_memo = _decorators(helper)
+        ta = _decorators(find_function(conv.tree, "to_arrow")) or _decorators(find_function(frame.tree, "arrow", "DataFrame"))
+        return [af_memo, h_memo, ta]
+
+    via_helper, helper_memo, col_memo = o.item("arrowexpr.schema_sites.from_arrow", schema_sites, [False, False, False])
+    af_memo, to_helper_memo, to_arrow_memo = o.item("arrowexpr.schema_sites.to_arrow", to_sites, [False, False, False])
     accepted, itered = o.item("arrowexpr.from_arrow.input_dispatch", input_dispatch, [["Generator", "list", "tuple"], ["list", "tuple"]])
     ip, isc = o.item("arrowexpr.init.decimal_defaults", init_defaults, [PINNED_R3["init.precision"], PINNED_R3["init.scale"]])
     g_arrow = o.item("arrowexpr.glue.DataFrame.arrow", lambda: size_passed(find_function(frame.tree, "arrow", "DataFrame"), "to_arrow"),
@@ -481,5 +542,19 @@ def generate(o):
     text += "def acceptedShapes : List String := [%s]\n" % ", ".join('"%s"' % x for x in accepted)
     text += "/-- …and in `if isinstance(tables, (…)): tables = iter(tables)` -/\n"
     text += "def iteredShapes : List String := [%s]\n" % ", ".join('"%s"' % x for x in itered)
+    def b(x):
+        return "true" if x else "false"
+    text += "/-- converters.py `from_arrow`: the Orso schema comes from the schema helper (`convert_arrow_schema_to_orso_schema`), not from a `RelationSchema(…)` built in place -/\n"
+    text += "def fromArrowSchemaViaHelper : Bool := %s\n" % b(via_helper)
+    text += "/-- schema.py `convert_arrow_schema_to_orso_schema` carries a cache decorator: an equal Arrow schema gets the objects returned before -/\n"
+    text += "def schemaHelperMemoised : Bool := %s\n" % b(helper_memo)
+    text += "/-- schema.py `FlatColumn.from_arrow` carries a cache decorator -/\n"
+    text += "def columnFromArrowMemoised : Bool := %s\n" % b(col_memo)
+    text += "/-- schema.py `FlatColumn.arrow_field` is kept on / for the column (cached property, cache decorator) instead of computed on every read -/\n"
+    text += "def arrowFieldMemoised : Bool := %s\n" % b(af_memo)
+    text += "/-- schema.py `convert_orso_schema_to_arrow_schema` carries a cache decorator -/\n"
+    text += "def toArrowSchemaHelperMemoised : Bool := %s\n" % b(to_helper_memo)
+    text += "/-- converters.py `to_arrow` / dataframe.py `DataFrame.arrow` carry a cache decorator -/\n"
+    text += "def toArrowMemoised : Bool := %s\n" % b(to_arrow_memo)
     text += "end Gen.ArrowExpr\n"
     o.files["ArrowExpr.lean"] = text
